@@ -41,6 +41,9 @@ func (s *Store[H]) OnDelete(fn func(context.Context, uint64) error) {
 var (
 	deleteRangeParallelThreshold uint64 = 10000
 	errDeleteTimeout                    = errors.New("delete timeout")
+	// errHeaderMissing reports that the header to delete is neither indexed nor pending.
+	// It is distinct from datastore.ErrNotFound, which an OnDelete handler may return on its own.
+	errHeaderMissing = errors.New("header is missing")
 )
 
 // deleteSingle deletes a single header from the store,
@@ -60,6 +63,8 @@ func (s *Store[H]) deleteSingle(
 		// the header might not be flushed on disk yet and still sit in the pending batch
 		if h := s.pending.GetByHeight(height); !h.IsZero() {
 			hash, err = h.Hash(), nil
+		} else {
+			err = fmt.Errorf("%w: %w", errHeaderMissing, err)
 		}
 	}
 	if err != nil {
@@ -108,7 +113,7 @@ func (s *Store[H]) deleteSequential(
 
 	for height := from; height < to; height++ {
 		err := s.deleteSingle(ctx, height, onDelete)
-		if errors.Is(err, datastore.ErrNotFound) {
+		if errors.Is(err, errHeaderMissing) {
 			missing++
 			log.Debugw("attempt to delete header that's not found", "height", height)
 		} else if err != nil {
@@ -173,7 +178,7 @@ func (s *Store[H]) deleteParallel(ctx context.Context, from, to uint64) (uint64,
 		for height := range jobCh {
 			last.height = height
 			last.err = s.deleteSingle(workerCtx, height, onDelete)
-			if errors.Is(last.err, datastore.ErrNotFound) {
+			if errors.Is(last.err, errHeaderMissing) {
 				last.missing++
 				log.Debugw("attempt to delete header that's not found", "height", height)
 			} else if last.err != nil {
